@@ -18,6 +18,12 @@ from .exceptions import DeviceError
 logger = logging.getLogger(__name__)
 
 
+def parse_float(text):
+    # PRINT writes the exponent of a DOUBLE as D (1D+100); accept that
+    # spelling when a number is read back by READ or INPUT
+    return float(text.replace('D', 'E').replace('d', 'e'))
+
+
 class Device:
     class Error(Enum):
         UNKNOWN_OP = 1
@@ -359,7 +365,7 @@ class TerminalDevice(Device):
                     converted.append((CellType.LONG, v))
                 elif vtype == 3:  # SINGLE
                     try:
-                        v = float(v)
+                        v = parse_float(v)
                     except ValueError:
                         return False
                     if not expr.Type.SINGLE.can_hold(v):
@@ -367,7 +373,7 @@ class TerminalDevice(Device):
                     converted.append((CellType.SINGLE, v))
                 elif vtype == 4:  # DOUBLE
                     try:
-                        v = float(v)
+                        v = parse_float(v)
                     except ValueError:
                         return False
                     if not expr.Type.DOUBLE.can_hold(v):
@@ -466,10 +472,10 @@ class DataDevice(Device):
                 value = 0 if s == Empty.value else int(s)
                 self.cpu.push(CellType.LONG, value)
             elif data_type == 3:
-                value = 0.0 if s == Empty.value else float(s)
+                value = 0.0 if s == Empty.value else parse_float(s)
                 self.cpu.push(CellType.SINGLE, value)
             elif data_type == 4:
-                value = 0.0 if s == Empty.value else float(s)
+                value = 0.0 if s == Empty.value else parse_float(s)
                 self.cpu.push(CellType.DOUBLE, value)
             elif data_type == 5:
                 value = '' if s == Empty.value else s
